@@ -83,6 +83,105 @@ func checkC05(c *Ctx) {
 }
 
 // ---------------------------------------------------------------- R-route
+// deliveryTargets: the delivery actions of fn — sends on a channel field of a record, calls handing a writer field of a
+// record to a callee — as (instruction, record, kind). Calls to library helpers that deliver on one of their own
+// parameters (one level) count as delivering on the argument.
+type delivery struct {
+	at     ssa.Instruction
+	target ssa.Value
+	what   string
+}
+
+func deliveriesOf(c *Ctx, fn *ssa.Function, depth int) []delivery {
+	var out []delivery
+	ir.EachInstr(fn, func(_ *ssa.BasicBlock, _ int, in ssa.Instruction) {
+		switch x := in.(type) {
+		case *ssa.Select:
+			for _, st := range x.States {
+				if st.Dir == types.SendOnly {
+					if _, base, ok := ir.LoadedField(st.Chan); ok {
+						out = append(out, delivery{in, base, "queue"})
+					}
+				}
+			}
+		case *ssa.Call:
+			direct := false
+			for _, a := range x.Call.Args {
+				if f, base, ok := ir.LoadedField(a); ok && isWriterType(f.Type) {
+					out = append(out, delivery{in, base, "stream"})
+					direct = true
+				}
+			}
+			if direct || depth > 0 {
+				return
+			}
+			sc := ir.StaticCallee(x)
+			if sc == nil || !c.P.IsLib(sc) || sc == fn {
+				return
+			}
+			for _, d := range deliveriesOf(c, sc, depth+1) {
+				for i, p := range sc.Params {
+					if derivesFromAny(d.target, []ssa.Value{p}, 0) && i < len(x.Call.Args) {
+						out = append(out, delivery{in, x.Call.Args[i], d.what})
+					}
+				}
+			}
+		}
+	})
+	return out
+}
+
+// keyedLookups: values of fn obtained from a table lookup keyed by parameter p — directly, or through a library helper
+// that is handed p, looks it up in a table field and returns what it found.
+func keyedLookups(c *Ctx, fn *ssa.Function, p *ssa.Parameter, depth int) []ssa.Value {
+	var lookups []ssa.Value
+	ir.EachInstr(fn, func(_ *ssa.BasicBlock, _ int, in ssa.Instruction) {
+		switch x := in.(type) {
+		case *ssa.Lookup:
+			if x.Index == ssa.Value(p) {
+				if _, _, ok := ir.LoadedField(x.X); ok {
+					lookups = append(lookups, x)
+				}
+			}
+		case *ssa.Call:
+			if ir.CallName(x) == "(*sync.Map).Load" && len(x.Call.Args) == 2 && ir.Unwrap(x.Call.Args[1]) == ssa.Value(p) {
+				lookups = append(lookups, x)
+				return
+			}
+			if depth > 0 {
+				return
+			}
+			sc := ir.StaticCallee(x)
+			if sc == nil || !c.P.IsLib(sc) || sc == fn {
+				return
+			}
+			for i, a := range x.Call.Args {
+				if a != ssa.Value(p) || i >= len(sc.Params) {
+					continue
+				}
+				inner := keyedLookups(c, sc, sc.Params[i], depth+1)
+				if len(inner) == 0 {
+					continue
+				}
+				returnsIt := false
+				ir.EachInstr(sc, func(_ *ssa.BasicBlock, _ int, in2 ssa.Instruction) {
+					if r, ok := in2.(*ssa.Return); ok {
+						for _, rv := range ir.Results(r) {
+							if derivesFromAny(rv, inner, 0) {
+								returnsIt = true
+							}
+						}
+					}
+				})
+				if returnsIt {
+					lookups = append(lookups, x)
+				}
+			}
+		}
+	})
+	return lookups
+}
+
 func c05Route(c *Ctx) {
 	n := 0
 	for _, fn := range c.P.LibFns {
@@ -94,53 +193,17 @@ func c05Route(c *Ctx) {
 			if b, ok := p.Type().Underlying().(*types.Basic); !ok || b.Kind() != types.String {
 				continue
 			}
-			var lookups []ssa.Value
-			ir.EachInstr(fn, func(_ *ssa.BasicBlock, _ int, in ssa.Instruction) {
-				switch x := in.(type) {
-				case *ssa.Lookup:
-					if x.Index == ssa.Value(p) {
-						if _, _, ok := ir.LoadedField(x.X); ok {
-							lookups = append(lookups, x)
-						}
-					}
-				case *ssa.Call:
-					if ir.CallName(x) == "(*sync.Map).Load" && len(x.Call.Args) == 2 && ir.Unwrap(x.Call.Args[1]) == ssa.Value(p) {
-						lookups = append(lookups, x)
-					}
-				}
-			})
+			lookups := keyedLookups(c, fn, p, 0)
 			if len(lookups) == 0 {
 				continue
 			}
-			// delivery actions in fn: sends on a channel field of a record, write uses of a writer field of a record
-			ir.EachInstr(fn, func(_ *ssa.BasicBlock, _ int, in ssa.Instruction) {
-				var target ssa.Value
-				what := ""
-				switch x := in.(type) {
-				case *ssa.Select:
-					for _, st := range x.States {
-						if st.Dir == types.SendOnly {
-							if _, base, ok := ir.LoadedField(st.Chan); ok {
-								target, what = base, "queue"
-							}
-						}
-					}
-				case *ssa.Call:
-					for _, a := range x.Call.Args {
-						if f, base, ok := ir.LoadedField(a); ok && isWriterType(f.Type) {
-							target, what = base, "stream"
-						}
-					}
-				}
-				if target == nil {
-					return
-				}
+			for _, d := range deliveriesOf(c, fn, 0) {
 				n++
-				from := derivesFromAny(target, lookups, 0)
-				key := sprintf("%s of %s addressed by %s #%d", what, fname(fn), p.Name(), n)
-				c.R.Check(from, "R-route", key, c.Pos(in.Pos()), "obtained from the lookup keyed by the addressed session id",
-					sprintf("%s delivers on a %s that does not come from the table lookup keyed by its session-id parameter %q: traffic can reach another session", fname(fn), what, p.Name()))
-			})
+				from := derivesFromAny(d.target, lookups, 0)
+				key := sprintf("%s of %s addressed by %s #%d", d.what, fname(fn), p.Name(), n)
+				c.R.Check(from, "R-route", key, c.Pos(d.at.Pos()), "obtained from the lookup keyed by the addressed session id",
+					sprintf("%s delivers on a %s that does not come from the table lookup keyed by its session-id parameter %q: traffic can reach another session", fname(fn), d.what, p.Name()))
+			}
 		}
 	}
 	c.R.Min("R-route", 4)
